@@ -2,16 +2,20 @@
 //!   pvh <property> [--tier quick|thorough] [--seed N] [--model PATH] [--out FILE] [--replay FILE]
 #![allow(clippy::all)]
 #![allow(dead_code)]
+mod c01;
 mod c09;
 mod c10;
 mod c11;
 mod c15;
 mod gallina;
 mod impls;
+mod lab;
 mod model;
+mod prims;
 mod report;
 mod rng;
 mod sexp;
+mod tok;
 
 pub struct Ctx {
     pub tier: String,
@@ -54,8 +58,13 @@ fn main() {
         i += 2;
     }
     // a panic inside a case is caught by the case runner; keep the default hook quiet
-    std::panic::set_hook(Box::new(|_| {}));
+    std::panic::set_hook(Box::new(|info| {
+        if std::env::var("PVH_DEBUG").is_ok() {
+            eprintln!("panic: {info}");
+        }
+    }));
     match args[1].to_ascii_lowercase().as_str() {
+        "c01" => c01::run(&ctx),
         "c09" => c09::run(&ctx),
         "c10" => c10::run(&ctx),
         "c11" => c11::run(&ctx),
